@@ -868,6 +868,45 @@ func (w *c01pWorld) opNodeDelete(num int64) {
 	w.observe()
 }
 
+// opNodeUpdate (B streams): one of the case's nodes changes its allocatable (Plugin.OnNodeUpdate; 1/5 with an unchanged
+// ResourceVersion, which the plugin ignores).
+func (w *c01pWorld) opNodeUpdate() {
+	h, r := w.h, w.r
+	if !w.same || len(w.nodes) == 0 {
+		return
+	}
+	var ids []int
+	for id := range w.nodes {
+		ids = append(ids, id)
+	}
+	sort.Ints(ids)
+	id := ids[r.Intn(len(ids))]
+	old := w.nodes[id]
+	sum, _ := w.sumMin()
+	alloc := [2]int64{sum[0] * int64(r.Range(0, 8)) / 8, sum[1] * int64(r.Range(0, 8)) / 8}
+	alloc[0] -= alloc[0] % 250
+	nw := old.DeepCopy()
+	nw.Status.Allocatable = c01pRL(alloc)
+	same := r.Chance(1, 5)
+	if !same {
+		nw.ResourceVersion = fmt.Sprint(w.nextNode*1000 + r.Range(1, 999))
+		if nw.ResourceVersion == old.ResourceVersion {
+			nw.ResourceVersion += "0"
+		}
+		w.nodes[id] = nw
+		h.Tag("pl:node-update")
+	} else {
+		h.Tag("pl:node-update-same-rv-ignored")
+	}
+	a := old.Status.Allocatable
+	h.Op("total %d %d", alloc[0]-c01pVal(a, 0), alloc[1]-c01pVal(a, 1)) // no effect on the accounting
+	if h.Guard(func() { w.pl.OnNodeUpdate(old, nw) }) {
+		h.Obs("panic")
+		return
+	}
+	w.observe()
+}
+
 func (w *c01pWorld) opRefresh(n int) {
 	h := w.h
 	mgr := w.mgr()
@@ -949,6 +988,8 @@ func (w *c01pWorld) scaleNudge() {
 		w.opNodeAdd(a)
 	case x == 1:
 		w.opNodeDelete(int64(r.Range(0, 7)))
+	case x == 2 && w.same && len(w.nodes) > 0:
+		w.opNodeUpdate()
 	case len(qids) > 0:
 		w.opRefresh(qids[r.Intn(len(qids))])
 	}
@@ -1823,7 +1864,7 @@ func TestVerifC01Plugin(t *testing.T) {
 		"D5 relabelled while the default group holds it before its quota exists, D6 relabelled between OnQuotaAdd and the call (registered finding, own fingerprint); " +
 		"the same happens at random in every case (VERIF_C01P_FREE=0 restores the restricted generator, =1 everything but D6); " +
 		"every 5th case (index%5 == 2; the plugin's managers have min-quota scaling ON by default) starts with 2-3 root-level siblings with min > 0 (3/4 non-lending), two nodes covering their summed min " +
-		"(B streams: Plugin.OnNodeAdd / OnNodeDelete incl. DeletedFinalStateUnknown; stream A: SetTotalResourceForTree), one node gone, RefreshRuntime of the siblings (what PreFilter / the status controller call), " +
+		"(B streams: Plugin.OnNodeAdd / OnNodeUpdate / OnNodeDelete incl. DeletedFinalStateUnknown; stream A: SetTotalResourceForTree), one node gone, RefreshRuntime of the siblings (what PreFilter / the status controller call), " +
 		"pods labelled with them, and further node / refresh calls in between the random calls; the case's nodes are removed at its end; " +
 		"a fresh manager is fed the final objects in the middle and at the end of every case; " +
 		"non-trivial = some quota's request exceeded its max")
